@@ -439,6 +439,11 @@ pub fn cases(tier: &str) -> Vec<Case> {
             sets.push(vec![BY_REF[i], BY_REF[j]]);
             for l in j + 1..n {
                 sets.push(vec![BY_REF[i], BY_REF[j], BY_REF[l]]);
+                if !quick {
+                    for m in l + 1..n {
+                        sets.push(vec![BY_REF[i], BY_REF[j], BY_REF[l], BY_REF[m]]);
+                    }
+                }
             }
         }
     }
@@ -465,7 +470,7 @@ pub fn cases(tier: &str) -> Vec<Case> {
 pub fn meta(tier: &str) -> Meta {
     Meta {
         level: "model_checking",
-        rule: "every set of <= 3 of 18 by-reference proposal atoms (valid and invalid: add new / existing identity / expired key package, update by two members, the same member twice, the committer; remove by one or two proposers, of a proposer, of the committer; PSK once and twice; one or two GCEs; custom; re-init) x 8 by-value atoms (3 invalid) x committer x 2 seed trees (dense 5, interior blank 4), proposals sent by real members and delivered to everybody (one receiver in reverse order, one fork missing the first); a case is judged by receiver acceptance, equality of applied / unused sets and epoch state between committer and receivers, refusal + unchanged state of the member that misses a referenced proposal, and a coarse RFC 9420 12.2 rule table; plus (checks/c10x.rs) every proposal kind re-issued as a correctly signed proposal of the group's external sender, of an external sender that is not in the list, and as a new-member proposal, alone, together with each genuine member proposal (both orders) and in pairs, committed by reference: nothing panics, members with the same cache accept the commit and agree on applied / unused sets and the epoch, a proposal whose sender RFC 9420 12.1 does not allow for its type is never applied, a proposal of an unknown external sender is never cached; plus (checks/c10y.rs) an adversarial committer (hook H8: its proposal filter keeps what it finds invalid, everything downstream is computed consistently by the library) over 22 invalid proposal sets, hand-encoded through CommitBuilder::raw_proposal where the public builders refuse (removal / update of the committer, update by value, two changes to one leaf, duplicate PSK, bad PSK nonce length or usage, two GCEs, GCE requiring an unsupported extension, re-init with other proposals or another version, Add of a member / expired / duplicate / other-suite key package, Remove of a blank leaf or beyond the tree, unsupported custom type, Update from an external sender) and 3 valid control sets: every receiver must refuse each invalid commit that really carries the set and stay unchanged, and accept the controls; states = cases".into(),
+        rule: "every set of <= 3 (thorough: <= 4) of 18 by-reference proposal atoms (valid and invalid: add new / existing identity / expired key package, update by two members, the same member twice, the committer; remove by one or two proposers, of a proposer, of the committer; PSK once and twice; one or two GCEs; custom; re-init) x 8 by-value atoms (3 invalid) x committer x 2 seed trees (dense 5, interior blank 4), proposals sent by real members and delivered to everybody (one receiver in reverse order, one fork missing the first); a case is judged by receiver acceptance, equality of applied / unused sets and epoch state between committer and receivers, refusal + unchanged state of the member that misses a referenced proposal, and a coarse RFC 9420 12.2 rule table; plus (checks/c10x.rs) every proposal kind re-issued as a correctly signed proposal of the group's external sender, of an external sender that is not in the list, and as a new-member proposal, alone, together with each genuine member proposal (both orders) and in pairs, committed by reference: nothing panics, members with the same cache accept the commit and agree on applied / unused sets and the epoch, a proposal whose sender RFC 9420 12.1 does not allow for its type is never applied, a proposal of an unknown external sender is never cached; plus (checks/c10y.rs) an adversarial committer (hook H8: its proposal filter keeps what it finds invalid, everything downstream is computed consistently by the library) over 22 invalid proposal sets, hand-encoded through CommitBuilder::raw_proposal where the public builders refuse (removal / update of the committer, update by value, two changes to one leaf, duplicate PSK, bad PSK nonce length or usage, two GCEs, GCE requiring an unsupported extension, re-init with other proposals or another version, Add of a member / expired / duplicate / other-suite key package, Remove of a blank leaf or beyond the tree, unsupported custom type, Update from an external sender) and 3 valid control sets: every receiver must refuse each invalid commit that really carries the set and stay unchanged, and accept the controls; states = cases".into(),
         assumptions: {
             let mut a = default_assumptions();
             a.push("where RFC 9420 leaves the choice among conflicting proposals to the committer only agreement between committer and receivers is demanded".into());
